@@ -237,9 +237,7 @@ example : Supported [.addVar .small 1 6, .minVal 0 48] = false := by decide
 example : Supported [.addVar .small 1 6, .le 0 0 2147483601] = false := by decide
 example : Satisfies [.addVar .small 1 6, .addVar .large 1 6, .le 0 1 (-1)] [1, 6] := by
   simp [Satisfies, SatFrom, nVarsOf, Cmd.nv, Cmd.holds, valOf]
-example : (match solveCmds [.addVar .midSmall 1 6, .addVar .large 1 6, .le 0 1 (-1)] with
-           | .sat τ n _ => τ = [3, 6] ∧ n = 2
-           | _ => False) := by decide
+example : (solveCmds [.addVar .midSmall 1 6, .addVar .large 1 6, .le 0 1 (-1)]).vals = some [3, 6] := by decide
 example : (solveCmds [.addVar .small 1 6, .addVar .small 1 6, .le 0 1 (-1), .ge 0 1 0]).isUnsat = true := by decide
 example : (solveCmds [.addVar .small 0 7, .addVar .small 0 7, .eq 0 1 3, .even 0, .even 1]).isUnsat = true := by decide
 
